@@ -156,7 +156,7 @@ def _run_alone(exe, case, per_case_timeout, cwd, env, extra_args):
     return "crash -"
 
 
-def run_impl(exe, cases, per_case_timeout=10.0, cwd=None, env=None, extra_args=(), max_abnormal=10):
+def run_impl(exe, cases, per_case_timeout=10.0, cwd=None, env=None, extra_args=(), max_abnormal=10, preexec_fn=None):
     """Feed cases to the Go driver one at a time.  The driver answers each line before
     reading the next; if the process dies (unrecoverable panic in a goroutine) the case
     is recorded as 'crash -', if it does not answer within the deadline as 'timeout -',
@@ -178,7 +178,7 @@ def run_impl(exe, cases, per_case_timeout=10.0, cwd=None, env=None, extra_args=(
             results += ["skipped -"] * (n - i)
             break
         p = subprocess.Popen([exe] + list(extra_args), stdin=subprocess.PIPE, stdout=subprocess.PIPE,
-                             stderr=subprocess.PIPE, cwd=cwd, env=env, bufsize=0)
+                             stderr=subprocess.PIPE, cwd=cwd, env=env, bufsize=0, preexec_fn=preexec_fn)
         q = queue.Queue()
 
         def reader(pr=p, qq=q):
@@ -521,6 +521,8 @@ BF_CHOICES = [BF_DEFAULT, (b"+--", b"    ", b"|--", b"|   "), (b"", b"", b"", b"
 
 
 def bf_args(bf):
+    if bf is None:
+        return "D D D D"        # no branch-format option: the library's own defaults
     return " ".join(hx(x) for x in bf)
 
 
